@@ -79,7 +79,7 @@ def check_intern_or_get(chk, prog, cfg, rule="R1.3"):
                 log.append(("push", args[1]))
                 return ("tuple", [])
             return None
-        r = absint.run(b, 0, {1: absint.Sym("self"), 2: absint.Sym("s")}, call=h, prog=prog)
+        r = absint.run(b, 0, {1: absint.Sym("self"), 2: absint.Sym("s")}, call=h, prog=prog, inline=True)
         return r, log
     try:
         ra, la = scenario(False)
@@ -115,19 +115,28 @@ def check_interner_ops(chk, prog, cfg, rule="R12.1"):
              "vec.get(sym.id as usize); Interner::elements = &self.vec; Interner::new = empty map and vec")
     b = anchor(chk, prog, "interner::Interner::get")
     if b is not None:
-        rt = b.return_term()
+        from ..lib import absint
+
+        def scen(present):
+            log = []
+
+            def h(name, args, t):
+                if name == BT + "::get" and len(args) == 2:
+                    log.append((args[0], args[1]))
+                    return absint.some(absint.Sym("K")) if present else absint.NONE
+                return None
+            return absint.run(b, 0, {1: absint.Sym("self"), 2: absint.Sym("sym")}, call=h, prog=prog, inline=True), log
         ok = False
-        detail = path_str(rt)
-        if is_call(rt, "core::option::Option::map", nargs=2):
-            g = rt[2][0]
-            cl, ups = mir.closure_of(rt[2][1])
-            if is_call(g, BT + "::get", nargs=2) and self_field(b, g[2][0], "map") and unref(g[2][1]) == arg(b, 2) and cl:
-                cb = prog.body(cl)
-                crt = cb.return_term() if cb else None
-                if crt and is_adt_agg(crt, SYM):
-                    idt = uncast(agg_field(crt, "id"))
-                    ok = unref(idt) == ("arg", 2, cb.names.get(2))
-                    detail = "map(get(self.map, sym), |id| %s)" % path_str(crt)
+        try:
+            rp, lp = scen(True)
+            ra, la = scen(False)
+            vp = absint.opt_view(rp)
+            pay = vp[1] if vp and vp[0] == "Some" else None
+            idv = pay[2][0] if (isinstance(pay, tuple) and pay and pay[0] == "variant" and pay[1] == "Symbol" and pay[2]) else None
+            ok = lp == [(absint.Sym("self.map"), absint.Sym("sym"))] and la == lp and idv == absint.Sym("K") and absint.opt_view(ra) == ("None",)
+            detail = "one lookup map.get(sym); present -> %s, absent -> %s" % (_show(rp), _show(ra))
+        except absint.Unrecognised as e:
+            detail = "cannot interpret Interner::get abstractly: %s" % e
         chk.expect(ok, rule, "Interner::get", b.where(), detail, cfg)
     b = anchor(chk, prog, "interner::Interner::resolve")
     if b is not None:
@@ -224,95 +233,89 @@ def check_builder_ops(chk, prog, cfg, rule="R12.2"):
 
 # -------------------------------------------------------------------------- R1.2
 def check_register_type(chk, prog, cfg, rule="R1.2"):
-    chk.rule(rule, "Registry::register_type: intern_type_id(ty.type_id()) dominates everything; type_info()/"
-             "into_portable()/types.insert(symbol, converted) happen exactly on the `inserted` branch, insert "
-             "post-dominating it; the other branch has no call and no write; the symbol of that intern call is returned")
+    chk.rule(rule, "Registry::register_type, decided by abstract interpretation (crate-local helpers inlined) in the two scenarios id-is-new / id-is-known: "
+             "the type id ty.type_id() is interned in self.type_table before anything else; when new, ty.type_info() is converted with "
+             "Type::into_portable(.., self) and stored by exactly one self.types.insert(that symbol, that value), in this order; when known there "
+             "is no further call and no write; the returned symbol is the interned one in both")
+    from ..lib import absint
     b = anchor(chk, prog, "registry::Registry::register_type")
     if b is None:
         return
     chk.count("bodies")
     W = b.where
-    TY = arg(b, 2)
-    interns = b.calls_to("Registry::intern_type_id")
-    tinfos = b.calls_to("MetaType::type_info")
-    intos = b.calls_to("IntoPortable::into_portable", declared=True)
-    inserts = [(bb, t) for bb, t in b.calls_to(BT + "::insert") if self_field(b, b.operand_term(t["args"][0]), "types")]
-    ok = len(interns) == 1 and len(tinfos) == 1 and len(intos) == 1 and len(inserts) == 1
-    chk.expect(ok, rule, "register_type:call-shape", W(), "intern_type_id=%d type_info=%d into_portable=%d types.insert=%d"
-               % (len(interns), len(tinfos), len(intos), len(inserts)), cfg)
-    if not ok:
+    ID = absint.Sym("ID")
+
+    def scenario(inserted):
+        log = []
+
+        def h(name, args, t):
+            sp = mir.strip_generics(name)
+            if sp.endswith("MetaType::type_id") and len(args) == 1:
+                log.append(("type_id", args[0]))
+                return absint.Sym("TID")
+            if sp.endswith("Interner::intern_or_get") and len(args) == 2:
+                log.append(("intern", args[0], args[1]))
+                return ("tuple", [inserted, ("variant", "Symbol", [ID, ("tuple", [])], 0, ("id", "marker"))])
+            if sp.endswith("MetaType::type_info") and len(args) == 1:
+                log.append(("type_info", args[0]))
+                return absint.Sym("TI")
+            if (t.get("trait") or "").endswith("IntoPortable") and len(args) == 2:
+                log.append(("into_portable", args[0], args[1], mir.strip_generics(t.get("resolved_impl") or "")))
+                return absint.Sym("PT")
+            if sp == BT + "::insert" and len(args) == 3:
+                log.append(("insert", args[0], args[1], args[2]))
+                return absint.NONE
+            if sp.split("::")[-1] in ("clone", "into", "from") and len(args) == 1:
+                return args[0]
+            return None
+        r = absint.run(b, 0, {1: absint.Sym("self"), 2: absint.Sym("ty")}, call=h, prog=prog, inline=True)
+        return r, log
+    try:
+        rn, ln = scenario(True)
+        rk, lk = scenario(False)
+    except absint.Unrecognised as e:
+        chk.unrecognised(rule, "register_type:interpretable", W(), "cannot interpret register_type abstractly: %s" % e, cfg)
         return
-    ibb, it = interns[0]
-    intern_t = b.call_term(it, bb=ibb)
-    # key: ty.type_id()
-    k = intern_t[2][1]
-    chk.expect(is_call(k, "MetaType::type_id", nargs=1) and unref(k[2][0]) == TY and unref(intern_t[2][0]) == arg(b, 1), rule,
-               "register_type:key=ty.type_id()", W(ibb), path_str(intern_t), cfg)
-    allcalls = [bb for bb, t in b.calls() if bb != ibb and not is_call(b.call_term(t), "MetaType::type_id")]
-    chk.expect(all(b.dominates(ibb, x) and x != ibb for x in allcalls), rule, "register_type:intern-first", W(ibb),
-               "intern_type_id in bb%d must dominate every other call (%s)" % (ibb, allcalls), cfg)
-    # the branch on `inserted`
-    flag = ("field", intern_t, 0, None, None)
-    sw = None
-    for i, bl in enumerate(b.blocks):
-        t = bl["term"]
-        if t["k"] == "switch" and b.operand_term(t["discr"]) == flag:
-            sw = (i, t)
-    if sw is None:
-        chk.fail(rule, "register_type:branch-on-inserted", W(), "no branch on the `inserted` component of the intern_type_id result: "
-                 "type_info()/insert are not conditional on the id being new", cfg)
-        return
-    zero = [a[1] for a in sw[1]["arms"] if a[0] == "0"]
-    true_t = sw[1]["otherwise"]
-    if not zero or zero[0] == true_t:
-        chk.unrecognised(rule, "register_type:branch-on-inserted", W(sw[0]), "unexpected switch shape %s" % sw[1], cfg)
-        return
-    false_t = zero[0]
-    tbb, ptb, nbb = tinfos[0][0], intos[0][0], inserts[0][0]
-    chk.expect(all(b.dominates(true_t, x) for x in (tbb, ptb, nbb)), rule, "register_type:expand-only-if-inserted", W(tbb),
-               "type_info bb%d, into_portable bb%d, insert bb%d must be dominated by the inserted-branch bb%d: a known id must "
-               "neither be re-evaluated nor re-written" % (tbb, ptb, nbb, true_t), cfg)
-    chk.expect(b.postdominates(nbb, true_t), rule, "register_type:insert-on-every-inserted-path", W(nbb),
-               "types.insert (bb%d) must post-dominate the inserted branch (bb%d)" % (nbb, true_t), cfg)
-    # false branch: no calls, no stores until the join
-    fr = b.reachable_from(false_t, avoid={sw[0]})
-    tr = b.reachable_from(true_t, avoid={sw[0]})
-    only_false = fr - tr
-    bad = [x for x in only_false if b.blocks[x]["term"]["k"] == "call" or any(s["k"] == "assign" and s["lhs"]["p"] for s in b.blocks[x]["stmts"])]
-    chk.expect(not bad, rule, "register_type:known-id-path-is-pure", W(false_t), "calls/stores on the not-inserted path: %s" % bad, cfg)
-    # after the join: nothing but the return
-    join = fr & tr
-    badj = [x for x in join if b.blocks[x]["term"]["k"] == "call"]
-    chk.expect(not badj, rule, "register_type:nothing-after-join", W(), "calls after the join: %s" % badj, cfg)
-    # insert(symbol, into_portable(type_info(ty), self))
-    ins_t = b.call_term(inserts[0][1], bb=nbb)
-    sym = ("field", intern_t, 1, None, None)
-    val = ins_t[2][2]
-    okv = is_call(val, "into_portable", nargs=2) and is_call(val[2][0], "MetaType::type_info", nargs=1) and unref(val[2][0][2][0]) == TY \
-        and unref(val[2][1]) == arg(b, 1)
-    chk.expect(ins_t[2][1] == sym and okv, rule, "register_type:insert(symbol, ty.type_info().into_portable(self))", W(nbb), path_str(ins_t), cfg)
-    if okv:
-        chk.expect(val[1].get("resolved_impl") is not None and "scale_info::ty::Type as scale_info::registry::IntoPortable" in mir.strip_generics(val[1]["resolved_impl"]),
-                   rule, "register_type:into_portable=Type", W(ptb), "resolved impl: %s" % val[1].get("resolved_impl"), cfg)
-    chk.expect(b.return_term() == sym, rule, "register_type:returns-symbol", W(), "returns %s" % path_str(b.return_term()), cfg)
-    # intern_type_id
-    b2 = anchor(chk, prog, "registry::Registry::intern_type_id")
-    if b2 is not None:
-        rt = b2.return_term()
-        ok = False
-        if rt[0] == "agg" and rt[1] == "tuple" and len(rt[3]) == 2:
-            f0, f1 = rt[3]
-            if f0[0] == "field" and f0[2] == 0 and is_call(f1, "Symbol::into_untracked", nargs=1) and f1[2][0][0] == "field" and f1[2][0][2] == 1 \
-                    and f0[1] == f1[2][0][1]:
-                c = f0[1]
-                ok = is_call(c, "Interner::intern_or_get", nargs=2) and self_field(b2, c[2][0], "type_table") and c[2][1] == arg(b2, 2)
-        chk.expect(ok and len(b2.calls_to("Interner::intern_or_get")) == 1, rule, "intern_type_id", b2.where(), path_str(rt), cfg)
+
+    def sym_id(v):
+        # Symbol / UntrackedSymbol {id, marker}
+        if isinstance(v, tuple) and v and v[0] == "variant" and v[2]:
+            return v[2][0]
+        return v
+    show = lambda lg: [tuple(getattr(y, "name", y) if not isinstance(y, tuple) else "<%s>" % (getattr(sym_id(y), "name", "?")) for y in x) for x in lg]
+    SELF, TY = absint.Sym("self"), absint.Sym("ty")
+    kinds_n = [x[0] for x in ln]
+    # the historical sub-obligations keep their keys (they name what went wrong)
+    interned_first = bool(ln) and [k for k in kinds_n if k != "type_id"][:1] == ["intern"] and kinds_n.count("intern") == 1
+    key_ok = interned_first and any(x[0] == "intern" and x[1] == absint.Sym("self.type_table") and x[2] == absint.Sym("TID") for x in ln) \
+        and any(x[0] == "type_id" and x[1] == TY for x in ln)
+    chk.expect(key_ok, rule, "register_type:key=ty.type_id()", W(), "id-is-new trace: %s" % show(ln), cfg)
+    chk.expect(interned_first, rule, "register_type:intern-first", W(), "the first effect must be the interning of the type id: %s" % show(ln), cfg)
+    ti = [x for x in ln if x[0] == "type_info"]
+    ip = [x for x in ln if x[0] == "into_portable"]
+    ins = [x for x in ln if x[0] == "insert"]
+    shape = len(ti) == 1 and len(ip) == 1 and len(ins) == 1
+    chk.expect(shape, rule, "register_type:call-shape", W(), "when the id is new: type_info=%d into_portable=%d types.insert=%d" % (len(ti), len(ip), len(ins)), cfg)
+    chk.expect(len(ins) >= 1 and all(x[1] == absint.Sym("self.types") for x in ins), rule, "register_type:insert-on-every-inserted-path", W(),
+               "when the id is new an entry must be stored in self.types: %s" % show(ln), cfg)
+    if shape:
+        order = kinds_n.index("intern") < kinds_n.index("type_info") < kinds_n.index("into_portable") < kinds_n.index("insert")
+        okv = ti[0][1] == TY and ip[0][1] == absint.Sym("TI") and ip[0][2] == SELF and sym_id(ins[0][2]) == ID and ins[0][3] == absint.Sym("PT") and order
+        chk.expect(okv, rule, "register_type:insert(symbol, ty.type_info().into_portable(self))", W(), "trace: %s" % show(ln), cfg)
+        chk.expect("scale_info::ty::Type as scale_info::registry::IntoPortable" in ip[0][3], rule, "register_type:into_portable=Type", W(), "resolved impl: %s" % ip[0][3], cfg)
+    kinds_k = [x[0] for x in lk]
+    chk.expect(not [k for k in kinds_k if k in ("type_info", "into_portable", "insert")], rule, "register_type:expand-only-if-inserted", W(),
+               "when the id is known nothing is evaluated or written again; trace: %s" % show(lk), cfg)
+    chk.expect(kinds_k.count("intern") == 1 and not [k for k in kinds_k if k not in ("type_id", "intern")], rule, "register_type:known-id-path-is-pure", W(),
+               "id-is-known trace: %s" % show(lk), cfg)
+    chk.expect(sym_id(rn) == ID and sym_id(rk) == ID, rule, "register_type:returns-symbol", W(),
+               "returns %r (new) / %r (known); required: the interned symbol" % (sym_id(rn), sym_id(rk)), cfg)
 
 
 # -------------------------------------------------------------------------- R1.1 / R11.1
 ALLOWED_MUT = {
     (REG, "types"): {("call", "scale_info::registry::Registry::register_type", BT + "::insert")},
-    (REG, "type_table"): {("call", "scale_info::registry::Registry::intern_type_id", "scale_info::interner::Interner::intern_or_get")},
+    (REG, "type_table"): {("call", "scale_info::registry::Registry::register_type", "scale_info::interner::Interner::intern_or_get")},
     (INT, "map"): {("call", "scale_info::interner::Interner::intern_or_get", BT + "::entry"),
                    ("call", "scale_info::interner::Interner::intern_or_get", BT + "::insert")},
     (INT, "vec"): {("call", "scale_info::interner::Interner::intern_or_get", VEC + "::push")},
@@ -329,14 +332,39 @@ def check_who_may_write(chk, prog, cfg, rule="R1.1"):
              "register_type, Registry.type_table only through intern_or_get in intern_type_id, Interner.map only "
              "by entry() and Interner.vec only by push() in intern_or_get; Registry/Interner values are built only "
              "by their `new`; no &mut to these fields escapes; all fields private")
+    callers = {}
+    for p_ in prog._bodies_raw:
+        bb_ = prog.body(p_)
+        if bb_ is None:
+            continue
+        root_ = prog.closure_root.get(p_, p_) if hasattr(prog, "closure_root") else p_
+        for _, t_ in bb_.calls():
+            for tgt in (t_.get("resolved"), t_.get("callee")):
+                if tgt in prog._bodies_raw:
+                    callers.setdefault(mir.strip_generics(tgt), set()).add(mir.strip_generics(root_))
+
+    def owner_ok(owner, roots, seen_=()):
+        """the allowed writer itself, or a private helper all of whose callers are allowed writers (extract-function refactorings)"""
+        if owner in roots:
+            return True
+        if owner in seen_:
+            return False
+        fs = [f for f in prog.fn_list if mir.strip_generics(f["path"]) == owner]
+        if not fs or any(f.get("vis") == "pub" for f in fs):
+            return False
+        cs = callers.get(owner, set())
+        return bool(cs) and all(owner_ok(c, roots, seen_ + (owner,)) for c in cs)
+
     for (adt, field), allowed in sorted(ALLOWED_MUT.items()):
         muts = who.field_mutations(prog, adt, field)
         seen = set()
+        roots = {a[1] for a in allowed}
+        ops = {a[2] for a in allowed}
         for m in muts:
             if m[0] == "call":
                 key = ("call", mir.strip_generics(m[1].path), m[3])
                 where = m[1].where(m[2])
-                if key in allowed:
+                if key in allowed or (m[3] in ops and owner_ok(key[1], roots)):
                     seen.add(key)
                     chk.ok(rule, "write:%s.%s:%s:%s" % (last(adt), field, last(key[1]), last(key[2])), where, "allowed append", cfg)
                 else:
@@ -389,18 +417,21 @@ def check_from_registry(chk, prog, cfg, rule="R1.4"):
     rt = b.return_term()
     ok = False
     detail = path_str(rt)
+    rt = mir.simplify(mir.inline_call(prog, rt))
     if is_adt_agg(rt, PR):
-        view = loops.map_collect_view(prog, b, agg_field(rt, "types"))
-        if view is not None:
-            src = view["iter"]
-            eb, crt, item = view["body"], view["elem"], view["item"]
+        sm = loops.seq_map(prog, b, agg_field(rt, "types"))
+        if sm is not None and sm[1].kind != "fn":
+            src, lam = sm
+            src = mir.strip_clones(src)
+            eb, item = lam.body, lam.item
+            crt = mir.strip_clones(mir.simplify(mir.inline_call(prog, lam.result)))
             if is_call(src, "Registry::types", nargs=1) and unref(src[2][0]) == arg(b, 1) and is_adt_agg(crt, PT):
                 idt, tyt = agg_field(crt, "id"), agg_field(crt, "ty")
                 ap = paths.access_path(eb, idt, roots={item})
                 okid = ap is not None and ap[0] == item and ap[1] == ".0.id"
-                okty = is_call(tyt, "clone", nargs=1) and paths.access_path(eb, tyt[2][0], roots={item}) == (item, ".1")
+                okty = not mir.calls_in(tyt) and paths.access_path(eb, tyt, roots={item}) == (item, ".1")
                 ok = okid and okty
-                detail = "%s form: for each item of registry.types(): %s" % (view["kind"], path_str(crt)[:160])
+                detail = "%s form: for each item of registry.types(): %s" % (lam.kind, path_str(crt)[:160])
     chk.expect(ok, rule, "From<Registry>:pairs-key-id-with-its-value", b.where(), detail, cfg)
     bt = anchor(chk, prog, "registry::Registry::types")
     if bt is not None:
@@ -425,38 +456,43 @@ def check_from_registry(chk, prog, cfg, rule="R1.4"):
 
 
 def check_resolve(chk, prog, cfg, rule="R1.5"):
-    chk.rule(rule, "PortableRegistry::resolve(id) = self.types.get(id as usize).map(|t| &t.ty): checked access, "
-             "no indexing/Assert, index from the parameter through a cast only")
+    chk.rule(rule, "PortableRegistry::resolve(id), decided by abstract interpretation in the scenarios position-in-range / out-of-range: one checked "
+             "lookup `self.types.get(id as usize)` (index = the parameter through a cast only); in range -> Some(&that entry.ty), out of range -> None; "
+             "no indexing, Assert or unwrap anywhere in the body")
+    from ..lib import absint
     b = anchor(chk, prog, "portable::PortableRegistry::resolve")
     if b is None:
         return
-    rt = b.return_term()
+
+    def scenario(hit):
+        log = []
+
+        def h(name, args, t):
+            if name == "core::slice::<impl [T]>::get" and len(args) == 2:
+                log.append(("get", args[0], args[1]))
+                return absint.some(absint.Sym("E")) if hit else absint.NONE
+            if name.split("::")[-1] in ("deref", "as_slice", "as_ref") and len(args) == 1:
+                return args[0]
+            return None
+        return absint.run(b, 0, {1: absint.Sym("self"), 2: absint.Sym("id")}, call=h, prog=prog, inline=True), log
+    detail = ""
     ok = False
-    detail = path_str(rt)
-    if is_call(rt, "core::option::Option::map", nargs=2):
-        g = rt[2][0]
-        cl, _ = mir.closure_of(rt[2][1])
-        if is_call(g, "core::slice::<impl [T]>::get", nargs=2) and self_field(b, g[2][0], "types") and g[2][1][0] == "cast" and uncast(g[2][1]) == arg(b, 2) and cl:
-            cb = prog.body(cl)
-            ap = paths.access_path(cb, cb.return_term())
-            ok = ap is not None and ap[0] == ("arg", 2, cb.names.get(2)) and ap[1] == ".ty"
-            detail = "types.get(id as usize).map(|t| %s)" % path_str(cb.return_term())
-    if not ok:
-        # `match self.types.get(id as usize) { Some(e) => Some(&e.ty), None => None }`
-        alts = list(rt[1]) if rt[0] == "phi" else [rt]
-        somes = [a for a in alts if is_adt_agg(a, "core::option::Option", "Some")]
-        nones = [a for a in alts if is_adt_agg(a, "core::option::Option", "None")]
-        if len(somes) == 1 and len(nones) == 1 and len(alts) == 2:
-            gets = [b.call_term(t, bb=bb) for bb, t in b.calls_to("core::slice::<impl [T]>::get")]
-            if len(gets) == 1:
-                g = gets[0]
-                ap = paths.access_path(b, somes[0][3][0], roots={g})
-                ok = ap is not None and ap[0] == g and paths.norm(ap[1]) == "?.ty" and self_field(b, g[2][0], "types") \
-                    and g[2][1][0] == "cast" and uncast(g[2][1]) == arg(b, 2)
-                detail = "match types.get(id as usize) { Some(e) => Some(&e%s), None => None }" % (paths.norm(ap[1])[1:] if ap else "?")
+    try:
+        rh, lh = scenario(True)
+        rm, lm = scenario(False)
+        ok = lh == [("get", absint.Sym("self.types"), absint.Sym("id"))] and lm == lh and absint.opt_view(rh) == ("Some", absint.Sym("E.ty")) and absint.opt_view(rm) == ("None",)
+        detail = "lookups: %s; in range -> %s, out of range -> %s" % ([(x[0], x[1].name if hasattr(x[1], "name") else x[1], getattr(x[2], "name", x[2])) for x in lh], _show(rh), _show(rm))
+    except absint.Unrecognised as e:
+        detail = "cannot interpret resolve abstractly: %s" % e
     no_assert = not any(bl["term"]["k"] == "assert" for bl in b.blocks if not bl["cleanup"])
     no_index = not any(last(b.callee_name(t)) in ("index", "index_mut", "unwrap", "expect") for _, t in b.calls())
     chk.expect(ok and no_assert and no_index, rule, "resolve", b.where(), detail + ("" if no_assert and no_index else " (panicking access present)"), cfg)
+
+
+def _show(v):
+    if isinstance(v, tuple) and v and v[0] == "variant":
+        return "%s(%s)" % (v[1], ", ".join(_show(x) for x in v[2]))
+    return getattr(v, "name", repr(v))
 
 
 def check_finish(chk, prog, cfg, rule="R1.6"):
@@ -468,17 +504,20 @@ def check_finish(chk, prog, cfg, rule="R1.6"):
     rt = b.return_term()
     ok = False
     detail = path_str(rt)
+    rt = mir.simplify(mir.inline_call(prog, rt))
     if is_adt_agg(rt, PR):
-        view = loops.map_collect_view(prog, b, agg_field(rt, "types"))
-        if view is not None:
-            src = view["iter"]
-            eb, crt, item = view["body"], view["elem"], view["item"]
+        sm = loops.seq_map(prog, b, agg_field(rt, "types"))
+        if sm is not None and sm[1].kind != "fn":
+            src, lam = sm
+            src = mir.strip_clones(src)
+            eb, item = lam.body, lam.item
+            crt = mir.strip_clones(mir.simplify(mir.inline_call(prog, lam.result)))
             if is_call(src, "core::iter::traits::iterator::Iterator::enumerate", nargs=1) and is_call(src[2][0], "core::slice::<impl [T]>::iter", nargs=1):
                 el = unref(src[2][0][2][0])
                 if is_call(el, "Interner::elements", nargs=1) and self_field(b, el[2][0], "types") and is_adt_agg(crt, PT):
                     idt, tyt = agg_field(crt, "id"), agg_field(crt, "ty")
                     okid = idt[0] == "cast" and paths.access_path(eb, uncast(idt), roots={item}) == (item, ".0")
-                    okty = is_call(tyt, "clone", nargs=1) and paths.access_path(eb, tyt[2][0], roots={item}) == (item, ".1")
+                    okty = not mir.calls_in(tyt) and paths.access_path(eb, tyt, roots={item}) == (item, ".1")
                     ok = okid and okty
-                    detail = "%s form: enumerate() item -> %s" % (view["kind"], path_str(crt)[:160])
+                    detail = "%s form: enumerate() item -> %s" % (lam.kind, path_str(crt)[:160])
     chk.expect(ok, rule, "finish", b.where(), detail, cfg)
